@@ -15,9 +15,10 @@ LEVEL_TEXT = ('static analysis (effect / alias fix-point over the whole call gra
               'from a generator object that outlives the call (module-level, default-argument or class-attribute RandomState / default_rng), that'
               ' pool results are consumed in submission order and the fan-out drivers (read counting, pileup, segmentation), interpreted for 1 '
               'and 3 processes, hand every unit of work to the same worker with the same options in the same order (rules of C09-D5 / C03-D5; the'
-              ' chunker on all small inputs), that no hidden module state is written, that ensure_path() precedes the promised writes, and -- '
-              'interpreted over a small file-system model -- never overwrites or loses an existing file (k writes leave k files).  Does not '
-              'decide floating-point run-to-run equality (follows from these only modulo library determinism).')
+              ' chunker on all small inputs), that no hidden module-level or class-level state is written (containers written through a local '
+              'alias included; embedded positive example), that ensure_path() precedes the promised writes, and -- interpreted over a small file-'
+              'system model -- never overwrites or loses an existing file (k writes leave k files).  Does not decide floating-point run-to-run '
+              'equality (follows from these only modulo library determinism).')
 
 # methods that are in-place by contract (documented mutators) -- everything else on the array classes must leave self alone
 IN_PLACE = {"__init__", "__setitem__", "__delitem__", "add", "sort", "sort_columns", "center_all", "shuffle"}
